@@ -510,3 +510,24 @@ def series(rng, base, nframes, field="random", amp_frac=0.3, snap=8, renumber=Tr
         for t in range(1, nframes):
             times.append(times[-1] + float(2.0 ** int(rng.integers(-2, 3))))
     return specs, times, truth
+
+
+def with_dangling(spec, rng, k=2, core_size=6):
+    """a connected core plus k cells that each touch exactly one cell of the result (cells without internal interfaces)"""
+    adj = cell_adjacency(spec)
+    ids = [c for c, _ in spec["cells"]]
+    for _ in range(30):
+        core = set(connected_subsets(spec, rng, 1, min_cells=min(core_size, len(ids)))[0][:core_size + 3])
+        if not is_connected(spec, core):
+            continue
+        cand = [c for c in ids if c not in core and len(adj[c] & core) == 1]
+        rng.shuffle(cand)
+        chosen = []
+        for c in cand:
+            if all(c not in adj[d] for d in chosen):
+                chosen.append(c)
+            if len(chosen) == k:
+                break
+        if len(chosen) == k:
+            return sub_tissue(spec, sorted(core | set(chosen)))
+    return None
